@@ -829,6 +829,74 @@ fn scenario_kill_then_drop(seed: u64) {
 }
 
 // ------------------------------------------------------------------------------------------------
+// C17 "given a timeout they return by the deadline", across threads: one thread's timed call that legitimately waits
+// out a long timeout on a stuck actor must not delay another thread's timed calls - neither to a healthy actor nor to
+// the stuck one. Miri's clock charges virtual time for executed code, so the bound is generous (a third of the long
+// timeout) but still far below what a call would take if it had to wait for the other call's timeout first.
+fn scenario_timed_independent(seed: u64) {
+    let mut rng = Rng(seed);
+    let rt = rt();
+    let (x, xjh, xjournal, gate) = new_actor(&rt, 1, true);
+    let gate = gate.unwrap();
+    let (y, yjh, _yj, _g) = new_actor(&rt, 4, false);
+    x.blocking_tell(Job(1, true), None).unwrap();
+    while xjournal.lock().unwrap().entered < 1 {
+        std::thread::sleep(Duration::from_millis(1));
+    }
+    x.blocking_tell(Job(2, false), None).unwrap(); // the single slot is taken: X's mailbox stays full
+    let long = Duration::from_secs(30);
+    let started = Arc::new(AtomicU64::new(0));
+    let a = {
+        let x = x.clone();
+        let started = started.clone();
+        let use_ask = rng.below(2) == 0;
+        std::thread::spawn(move || {
+            started.store(1, Ordering::SeqCst);
+            let t0 = Instant::now();
+            let r = if use_ask { x.blocking_ask(Job(3, false), Some(long)).map(|_| ()) } else { x.blocking_tell(Job(3, false), Some(long)) };
+            (r.map_err(|e| err_kind(&e)), t0.elapsed())
+        })
+    };
+    while started.load(Ordering::SeqCst) == 0 {
+        std::thread::sleep(Duration::from_millis(1));
+    }
+    std::thread::sleep(Duration::from_millis(50 + rng.below(200)));
+    let bound = long / 3;
+    let t0 = Instant::now();
+    let r1 = y.blocking_ask(Job(10, false), Some(Duration::from_millis(300))).map(|rc| rc.id).map_err(|e| err_kind(&e));
+    let e1 = t0.elapsed();
+    let t0 = Instant::now();
+    let r2 = x.blocking_tell(Job(11, false), Some(Duration::from_millis(200))).map_err(|e| err_kind(&e));
+    let e2 = t0.elapsed();
+    ev(format!("timed-independent healthy={r1:?} in {}ms stuck={r2:?} in {}ms", e1.as_millis(), e2.as_millis()));
+    if r1 != Ok(10) {
+        violation("C17", "healthy-actor-call-failed", format!("blocking_ask(Some(300ms)) to a live, idle actor returned {r1:?} while another thread's timed call was waiting on a different actor"));
+    }
+    if e1 > bound {
+        violation("C17", "timed-call-delayed-by-another", format!("blocking_ask(Some(300ms)) to a live, idle actor took {e1:?} while another thread's call was waiting out its {long:?} timeout on a different actor"));
+    }
+    if r2 != Err("Timeout") {
+        violation("C17", "timeout-missing", format!("blocking_tell(Some(200ms)) into a mailbox that stays full returned {r2:?}"));
+    }
+    if e2 > bound {
+        violation("C17", "timed-call-delayed-by-another", format!("blocking_tell(Some(200ms)) took {e2:?} to time out while another thread's call was waiting out its {long:?} timeout"));
+    }
+    let (ra, ea) = a.join().unwrap();
+    if ra != Err("Timeout") || ea < long {
+        violation("C17", "long-call-wrong", format!("the long call returned {ra:?} after {ea:?}"));
+    }
+    gate.add_permits(8);
+    rt.block_on(x.stop()).unwrap();
+    rt.block_on(y.stop()).unwrap();
+    let _ = rt.block_on(xjh);
+    let _ = rt.block_on(yjh);
+    let hx = xjournal.lock().unwrap();
+    if hx.handled.contains(&3) || hx.handled.contains(&11) {
+        violation("C17", "rejected-handled", format!("a blocking call that reported Timeout was handled: {:?}", hx.handled));
+    }
+}
+
+// ------------------------------------------------------------------------------------------------
 // C16 (thread clause): the blocking forwarders of the type-erased handlers. Two identically prepared actors
 // (gated handler in progress, mailbox filled to capacity or not), the same blocking call with the same
 // timeout - once on the ActorRef, once through Box<dyn TellHandler> / Box<dyn AskHandler> (every conversion)
@@ -1255,6 +1323,7 @@ fn main() {
         "end_vs_observers" => scenario_end_vs_observers(seed),
         "dd_mt" => scenario_dd_mt(seed),
         "erased_blocking" => scenario_erased_blocking(seed),
+        "timed_independent" => scenario_timed_independent(seed),
         "blocking_ask_vs_end" => scenario_blocking_ask_vs_end(seed),
         "deadletters" => scenario_deadletters(seed),
         "selftest_hang" => scenario_selftest_hang(seed),
